@@ -234,7 +234,10 @@ func Value() *rapid.Generator[string] {
 	})
 }
 
-var identCols = []string{"a", "b", "c", "d", "e", "f", "g", "count", "a1", "ab"}
+// identCols: identifiers of the query grammar.  The tail holds names that
+// look like operators or keywords of other query languages (they are plain
+// identifiers here) and underscore forms.
+var identCols = []string{"a", "b", "c", "d", "e", "f", "g", "count", "a1", "ab", "and", "or", "not", "AND", "Not", "null", "x_", "x_y"}
 
 var hostileCols = []string{"", " ", "A", "a b", "é", "\xff", "\"", "\n", "count", "a=", "a,b", "$1", "日本", "a\xffb"}
 
